@@ -426,4 +426,287 @@ theorem consumeValueUntil_contiguous (env : Env) (types : List String) : ∀ (F 
             exact .back (t' := _) htok (by simp [Tok.tv, World.toTok, hty, hval])
           · exact hsame.trans (SameParse.setBuf _ _)
 
+
+/-! ### completeness direction: a stream that yields a run of the step function is consumed by it -/
+
+def ctokOf (t : Tok) : CTok := { type := t.type, value := t.value, sidx := 0 }
+
+theorem ctokOf_tv (ts : List Tok) : (ts.map ctokOf).map CTok.tv = ts.map Tok.tv := by
+  induction ts with
+  | nil => rfl
+  | cons t ts ih => simp [ctokOf, CTok.tv, Tok.tv] at ih ⊢
+
+theorem RunsTo.cons_inv {σ α : Type} {step : σ → CTok → Except Err (σ ⊕ α)} {s : σ} {c : CTok} {cs : List CTok} {a : α}
+    (h : RunsTo step s (c :: cs) a) :
+    (cs = [] ∧ step s c = .ok (.inr a)) ∨ (∃ s1, step s c = .ok (.inl s1) ∧ RunsTo step s1 cs a) := by
+  cases h with
+  | last hs => exact .inl ⟨rfl, hs⟩
+  | more hs hr => exact .inr ⟨_, hs, hr⟩
+
+/-- If the stream yields `ts` and the pure step function, run over any tokens with the same
+    types and texts, reaches a result exactly at the end of them, then the loop ends normally
+    with such a result, the stream is right after `ts` and nothing else changed. -/
+theorem tokLoop_complete (env : Env) {σ α : Type} (step : σ → CTok → Except Err (σ ⊕ α)) :
+    ∀ (ts : List Tok) (s : σ) (F : Nat) (w : World) (b' : Buf),
+    Yields env.cfg w.buf ts b' → ts.length ≤ F →
+    (∀ cts : List CTok, cts.map CTok.tv = ts.map Tok.tv → ∃ a, RunsTo step s cts a) →
+    ∃ (w' : World) (a : α) (cts : List CTok),
+      interp env (P.loopN (F + 1) s (fun s => do let tok ← P.token; P.liftE (step s tok))) w = (w', .ok a) ∧
+      w'.buf = b' ∧ SameParse w w' ∧ cts.map CTok.tv = ts.map Tok.tv ∧ RunsTo step s cts a := by
+  intro ts
+  induction ts with
+  | nil =>
+    intro s F w b' _ _ hrun
+    obtain ⟨a, hr⟩ := hrun [] rfl
+    cases hr
+  | cons t ts ih =>
+    intro s F w b' hy hF hrun
+    cases hy with
+    | cons htok hrest =>
+      rename_i b1
+      have hho := handOut_same ({ w with buf := b1 } : World) t
+      obtain ⟨hsame0, hbuf, hty, hval⟩ := hho
+      have hsame := (SameParse.setBuf w b1).trans hsame0
+      have hc : CTok.tv (({ w with buf := b1 } : World).handOut t).1 = Tok.tv t := by simp [CTok.tv, Tok.tv, hty, hval]
+      simp only [P.loopN, bind, interp_bind, interp_token, htok, interp_liftE]
+      obtain ⟨a0, hr0⟩ := hrun ((({ w with buf := b1 } : World).handOut t).1 :: ts.map ctokOf)
+        (by simp only [List.map_cons, hc, ctokOf_tv])
+      rcases hr0.cons_inv with ⟨hnil, hstep⟩ | ⟨s1, hstep, hr1⟩
+      · -- the run ends at this token: `ts` is empty
+        cases ts with
+        | cons t2 ts2 => simp at hnil
+        | nil =>
+          have hb1 : b1 = b' := by cases hrest; rfl
+          refine ⟨_, a0, [(({ w with buf := b1 } : World).handOut t).1], ?_, hbuf.trans hb1, hsame, by simp [hc], .last hstep⟩
+          simp [hstep, interp]
+      · cases F with
+        | zero =>
+          cases ts with
+          | nil => cases hr1
+          | cons t2 ts2 => simp at hF
+        | succ F =>
+          have hrun1 : ∀ cts : List CTok, cts.map CTok.tv = ts.map Tok.tv → ∃ a, RunsTo step s1 cts a := by
+            intro cts hcts
+            obtain ⟨a, hr⟩ := hrun ((({ w with buf := b1 } : World).handOut t).1 :: cts) (by simp only [List.map_cons, hc, hcts])
+            rcases hr.cons_inv with ⟨_, hs⟩ | ⟨s1', hs, hr'⟩
+            · rw [hstep] at hs; cases hs
+            · rw [hstep] at hs; cases hs; exact ⟨a, hr'⟩
+          obtain ⟨w', a, cts, hw, hb, hsp, htv, hr⟩ := ih s1 F _ b' (by rw [hbuf]; exact hrest) (by simp at hF; omega) hrun1
+          refine ⟨w', a, (({ w with buf := b1 } : World).handOut t).1 :: cts, ?_, hb, hsame.trans hsp, by simp [hc, htv], .more hstep hr⟩
+          simp only [hstep]
+          exact hw
+
+/-! ### the balanced-token matcher on properly nested content -/
+
+/-- all-`inl` progress of a step function -/
+inductive Steps {σ α : Type} (step : σ → CTok → Except Err (σ ⊕ α)) : σ → List CTok → σ → Prop
+  | nil (s : σ) : Steps step s [] s
+  | cons {s s1 s' : σ} {c : CTok} {cs : List CTok} : step s c = .ok (.inl s1) → Steps step s1 cs s' → Steps step s (c :: cs) s'
+
+theorem Steps.append {σ α : Type} {step : σ → CTok → Except Err (σ ⊕ α)} {s s1 s2 : σ} {a b : List CTok}
+    (h1 : Steps step s a s1) (h2 : Steps step s1 b s2) : Steps step s (a ++ b) s2 := by
+  induction h1 with
+  | nil s => exact h2
+  | cons hs _ ih => exact .cons hs (ih h2)
+
+theorem Steps.runsTo {σ α : Type} {step : σ → CTok → Except Err (σ ⊕ α)} {s s1 : σ} {a : List CTok} {c : CTok} {r : α}
+    (h1 : Steps step s a s1) (h2 : step s1 c = .ok (.inr r)) : RunsTo step s (a ++ [c]) r := by
+  induction h1 with
+  | nil s => exact .last h2
+  | cons hs _ ih => exact .more hs (ih h2)
+
+/-- properly nested with respect to the bracket pairs of `_balanced_token_map` (a list of
+    token types): every opener is closed by its own closer, in order; other tokens are free,
+    except that a closer type never stands alone -/
+inductive Nested : List String → Prop
+  | nil : Nested []
+  | atom (t : String) (rest : List String) : Gen.balancedTokenMap.lookup t = none → P.isBalancedEnd t = false →
+      Nested rest → Nested (t :: rest)
+  | group (o cl : String) (inner rest : List String) : Gen.balancedTokenMap.lookup o = some cl →
+      Nested inner → Nested rest → Nested (o :: inner ++ cl :: rest)
+
+/-- facts about the regenerated bracket table that the matcher relies on -/
+def BalTableOK : Prop :=
+  (∀ p ∈ Gen.balancedTokenMap, P.isBalancedEnd p.1 = false) ∧ (∀ p ∈ Gen.balancedTokenMap, P.isBalancedEnd p.2 = true)
+
+theorem balTableOK : BalTableOK := by
+  unfold BalTableOK
+  constructor <;> decide
+
+theorem lookup_mem {k v : String} : ∀ {l : List (String × String)}, l.lookup k = some v → (k, v) ∈ l := by
+  intro l
+  induction l with
+  | nil => intro h; simp [List.lookup] at h
+  | cons p r ih =>
+    intro h
+    obtain ⟨k', v'⟩ := p
+    simp only [List.lookup] at h
+    by_cases hk : k = k'
+    · subst hk; simp at h; subst h; simp
+    · have : (k == k') = false := by simp [hk]
+      simp only [this] at h
+      exact List.mem_cons_of_mem _ (ih h)
+
+theorem nested_steps (tys : List String) (hn : Nested tys) :
+    ∀ (cts : List CTok), cts.map (·.type) = tys → ∀ (consumed : List CTok) (stack : List String), stack ≠ [] →
+    Steps P.balStep (consumed, stack) cts (consumed ++ cts, stack) := by
+  induction hn with
+  | nil =>
+    intro cts h consumed stack _
+    cases cts with
+    | nil => simpa using Steps.nil _
+    | cons c cs => simp at h
+  | atom t rest hl he _ ih =>
+    intro cts h consumed stack hne
+    cases cts with
+    | nil => simp at h
+    | cons c cs =>
+      simp only [List.map_cons, List.cons.injEq] at h
+      obtain ⟨hc, hcs⟩ := h
+      have hstep : P.balStep (consumed, stack) c = .ok (.inl (consumed ++ [c], stack)) := by
+        simp [P.balStep, hc, he, hl]
+      have := ih cs hcs (consumed ++ [c]) stack hne
+      have h2 : consumed ++ [c] ++ cs = consumed ++ c :: cs := by simp
+      rw [h2] at this
+      exact .cons hstep this
+  | group o cl inner rest hl _ _ ih1 ih2 =>
+    intro cts h consumed stack hne
+    have hmem := lookup_mem hl
+    have ho : P.isBalancedEnd o = false := balTableOK.1 _ hmem
+    have hcl : P.isBalancedEnd cl = true := balTableOK.2 _ hmem
+    -- split cts = co :: ci ++ cc :: cr
+    cases cts with
+    | nil => simp at h
+    | cons co cs =>
+      simp only [List.map_cons, List.cons_append, List.cons.injEq] at h
+      obtain ⟨hco, hcs⟩ := h
+      obtain ⟨ci, crest, hsplit, hci, hcr⟩ := List.map_eq_append_iff.mp hcs
+      cases crest with
+      | nil => simp at hcr
+      | cons cc cr =>
+        simp only [List.map_cons, List.cons.injEq] at hcr
+        obtain ⟨hcc, hcr⟩ := hcr
+        subst hsplit
+        have hstep1 : P.balStep (consumed, stack) co = .ok (.inl (consumed ++ [co], cl :: stack)) := by
+          simp [P.balStep, hco, ho, hl]
+        have hin := ih1 ci hci (consumed ++ [co]) (cl :: stack) (by simp)
+        have hstep2 : P.balStep (consumed ++ [co] ++ ci, cl :: stack) cc = .ok (.inl (consumed ++ [co] ++ ci ++ [cc], stack)) := by
+          have hs : stack.isEmpty = false := by cases stack <;> simp_all
+          simp [P.balStep, hcc, hcl, hs]
+        have hre := ih2 cr hcr (consumed ++ [co] ++ ci ++ [cc]) stack hne
+        have := Steps.cons hstep1 (Steps.append hin (Steps.cons hstep2 hre))
+        simpa using this
+
+/-- on `content ++ [closer]` with `content` properly nested, the matcher started with the
+    single opener `o0` returns exactly `o0 :: content ++ [closer]` -/
+theorem balanced_region_runs (o0 : CTok) (clty : String) (hl0 : Gen.balancedTokenMap.lookup o0.type = some clty)
+    (content : List CTok) (closer : CTok) (hn : Nested (content.map (·.type))) (hc : closer.type = clty) :
+    RunsTo P.balStep ([o0], [clty]) (content ++ [closer]) ([o0] ++ content ++ [closer]) := by
+  have hmem := lookup_mem hl0
+  have hcl : P.isBalancedEnd clty = true := balTableOK.2 _ hmem
+  have hs := nested_steps _ hn content rfl [o0] [clty] (by simp)
+  have hlast : P.balStep ([o0] ++ content, [clty]) closer = .ok (.inr ([o0] ++ content ++ [closer])) := by
+    simp [P.balStep, hc, hcl]
+  exact Steps.runsTo hs hlast
+
+/-- `_consume_balanced_tokens(o0)` on a stream that yields properly nested content followed
+    by the closer of `o0`: ends normally, returns `o0`, the content and the closer, and the
+    stream is right after the closer — whatever the content is. -/
+theorem consumeBalanced_region (env : Env) (o0 : CTok) (clty : String)
+    (hl0 : Gen.balancedTokenMap.lookup o0.type = some clty)
+    (content : List Tok) (closer : Tok) (hn : Nested (content.map (·.type))) (hc : closer.type = clty)
+    (w : World) (b' : Buf) (F : Nat) (hy : Yields env.cfg w.buf (content ++ [closer]) b') (hF : content.length + 1 ≤ F) :
+    ∃ (w' : World) (res : List CTok), interp env (P.consumeBalancedTokens (F + 1) [o0]) w = (w', .ok res) ∧
+      w'.buf = b' ∧ SameParse w w' ∧ res.map CTok.tv = o0.tv :: (content.map Tok.tv ++ [closer.tv]) := by
+  have hrun : ∀ cts : List CTok, cts.map CTok.tv = (content ++ [closer]).map Tok.tv →
+      ∃ a, RunsTo P.balStep ([o0], [clty]) cts a := by
+    intro cts hcts
+    -- split cts into content' ++ [closer']
+    obtain ⟨c1, c2, hsplit, h1, h2⟩ := List.map_eq_append_iff.mp (by simpa using hcts)
+    cases c2 with
+    | nil => simp at h2
+    | cons cc cr =>
+      cases cr with
+      | cons x y => simp at h2
+      | nil =>
+        simp only [List.map_cons, List.map_nil, List.cons.injEq, and_true] at h2
+        subst hsplit
+        have hty1 : c1.map (·.type) = content.map (·.type) := by
+          have := congrArg (List.map Prod.fst) h1
+          simpa [CTok.tv, Tok.tv, Function.comp_def] using this
+        have htyc : cc.type = clty := by
+          have := congrArg Prod.fst h2
+          simp [CTok.tv, Tok.tv] at this
+          rw [this, hc]
+        exact ⟨_, balanced_region_runs o0 clty hl0 c1 cc (by rw [hty1]; exact hn) htyc⟩
+  have hstack : (([o0].map (fun t => (Gen.balancedTokenMap.lookup t.type).getD "?")).reverse) = [clty] := by simp [hl0]
+  obtain ⟨w', a, cts, hw, hb, hsp, htv, hr⟩ := tokLoop_complete env P.balStep (content ++ [closer]) ([o0], [clty]) F w b' hy (by simpa using hF) hrun
+  refine ⟨w', a, ?_, hb, hsp, ?_⟩
+  · unfold P.consumeBalancedTokens
+    simp only [hstack]
+    exact hw
+  · have := runsTo_balStep _ _ _ hr
+    simp only at this
+    rw [this]
+    simp [htv]
+
+
+/-! ### routines built from the collectors -/
+
+/-- `_next_token_must_be(types)` when the next token has one of the types -/
+theorem interp_nextTokenMustBe_ok (env : Env) (types : List String) (w : World) (t : Tok) (b1 : Buf)
+    (htok : tokenEofOk env.cfg w.buf = .ok (some t, b1)) (hty : types.contains t.type = true) :
+    interp env (P.nextTokenMustBe types) w =
+      ((({ w with buf := b1 } : World).handOut t).2, .ok (({ w with buf := b1 } : World).handOut t).1) := by
+  have hho := handOut_same ({ w with buf := b1 } : World) t
+  unfold P.nextTokenMustBe
+  simp only [bind, interp_bind, interp_token, htok, hho.2.2.1, hty, ↓reduceIte]
+  rfl
+
+/-- two-opener start of `__attribute__((...))`: the matcher returns at the second closer -/
+theorem balanced_region2_runs (o0 o1 : CTok) (cl0 cl1 : String)
+    (hl0 : Gen.balancedTokenMap.lookup o0.type = some cl0) (hl1 : Gen.balancedTokenMap.lookup o1.type = some cl1)
+    (content : List CTok) (c1 c0 : CTok) (hn : Nested (content.map (·.type))) (hc1 : c1.type = cl1) (hc0 : c0.type = cl0) :
+    RunsTo P.balStep ([o0, o1], [cl1, cl0]) (content ++ [c1] ++ [c0]) ([o0, o1] ++ content ++ [c1] ++ [c0]) := by
+  have he0 : P.isBalancedEnd cl0 = true := balTableOK.2 _ (lookup_mem hl0)
+  have he1 : P.isBalancedEnd cl1 = true := balTableOK.2 _ (lookup_mem hl1)
+  have hs := nested_steps _ hn content rfl [o0, o1] [cl1, cl0] (by simp)
+  have h1 : P.balStep ([o0, o1] ++ content, [cl1, cl0]) c1 = .ok (.inl ([o0, o1] ++ content ++ [c1], [cl0])) := by
+    simp [P.balStep, hc1, he1]
+  have h0 : P.balStep ([o0, o1] ++ content ++ [c1], [cl0]) c0 = .ok (.inr ([o0, o1] ++ content ++ [c1] ++ [c0])) := by
+    simp [P.balStep, hc0, he0]
+  exact Steps.runsTo (Steps.append hs (.cons h1 (.nil _))) h0
+
+
+def balStack0 (init : List CTok) : List String :=
+  (init.map (fun t => (Gen.balancedTokenMap.lookup t.type).getD "?")).reverse
+
+theorem consumeBalanced_of_runs (env : Env) (init : List CTok) (ts : List Tok) (w : World) (b' : Buf) (F : Nat)
+    (hy : Yields env.cfg w.buf ts b') (hF : ts.length ≤ F)
+    (hrun : ∀ cts : List CTok, cts.map CTok.tv = ts.map Tok.tv → ∃ a, RunsTo P.balStep (init, balStack0 init) cts a) :
+    ∃ (w' : World) (res : List CTok), interp env (P.consumeBalancedTokens (F + 1) init) w = (w', .ok res) ∧
+      w'.buf = b' ∧ SameParse w w' ∧ res.map CTok.tv = init.map CTok.tv ++ ts.map Tok.tv := by
+  obtain ⟨w', a, cts, hw, hb, hsp, htv, hr⟩ := tokLoop_complete env P.balStep ts (init, balStack0 init) F w b' hy hF hrun
+  refine ⟨w', a, hw, hb, hsp, ?_⟩
+  have := runsTo_balStep _ _ _ hr
+  simp only at this
+  rw [this, List.map_append, htv]
+
+/-- split a token list that is type/text-equal to `xs ++ [y]` -/
+theorem tv_split_last {cts : List CTok} {xs : List Tok} {y : Tok} (h : cts.map CTok.tv = (xs ++ [y]).map Tok.tv) :
+    ∃ c1 cc, cts = c1 ++ [cc] ∧ c1.map (·.type) = xs.map (·.type) ∧ cc.type = y.type ∧ c1.map CTok.tv = xs.map Tok.tv := by
+  obtain ⟨c1, c2, hsplit, h1, h2⟩ := List.map_eq_append_iff.mp (by simpa using h)
+  cases c2 with
+  | nil => simp at h2
+  | cons cc cr =>
+    cases cr with
+    | cons x y => simp at h2
+    | nil =>
+      simp only [List.map_cons, List.map_nil, List.cons.injEq, and_true] at h2
+      refine ⟨c1, cc, hsplit, ?_, ?_, h1⟩
+      · have := congrArg (List.map Prod.fst) h1
+        simpa [CTok.tv, Tok.tv, Function.comp_def] using this
+      · have := congrArg Prod.fst h2
+        simpa [CTok.tv, Tok.tv] using this
+
 end Cxx
